@@ -613,6 +613,12 @@ fn file_cases<T: SerdeAPI + PartialEq + Clone + Norm>(kind: &str, id: &str, obj:
     let t_orig = to_node(obj);
     for (f, ext) in [(Fmt::Yaml, "yaml"), (Fmt::Json, "json"), (Fmt::Bin, "bin")] {
         let path = dir.join(format!("obj.{}", ext));
+        // the path already holds an older, LONGER file (a result file that is being reused): to_file has to replace it
+        if let Ok(e) = encode(obj, f) {
+            let doc: Vec<u8> = match &e { Enc::S(s) => s.as_bytes().to_vec(), Enc::B(b) => b.clone() };
+            let mut old = doc.clone(); old.extend_from_slice(b"\n}}}} ::: {{{{ \x01\n"); old.extend_from_slice(&doc);
+            let _ = std::fs::write(&path, old);
+        }
         let via_file: Result<T, String> = match catch(AssertUnwindSafe(|| obj.to_file(&path).and_then(|_| T::from_file(&path)))) {
             Ok(Ok(x)) => Ok(x), Ok(Err(e)) => Err(format!("{:#}", e)), Err(p) => Err(format!("PANIC {}", p)) };
         let via_mem: Result<T, String> = encode(obj, f).and_then(|e| decode::<T>(&e, f));
